@@ -273,6 +273,11 @@ def render(case, rng):
     for i in range(len(cps)):
         if rng.random() < 0.1 and free_numbers:
             cp_alias[i] = str(free_numbers.pop(rng.randrange(len(free_numbers))))
+    if rng.random() < 0.3:
+        # names / aliases that differ only in letter case are different names
+        ids_sorted = sorted(a["id"] for a in acts)
+        act_name = {aid: ("Act %d" % (k // 2) if k % 2 else "act %d" % (k // 2)) for k, aid in enumerate(ids_sorted)}
+        cp_alias = [a if a.isdigit() else ("Cp %d" % (i // 2) if i % 2 else "cp %d" % (i // 2)) for i, a in enumerate(cp_alias)]
     party_name = ["party %d" % i for i in range(len(case["parties"]))]
     if len(party_ids) >= 2 and rng.random() < 0.35:
         # names that are the decimal spelling of ANOTHER party's id: "party:{7}" and "party:7" are different parties
